@@ -32,7 +32,7 @@ for fl, nr, tiers in (('MEMB', 1, ('quick', 'thorough')), ('MB', 1, ('quick', 't
 for nr, tiers in ((1, ('quick', 'thorough')), (2, ('thorough',))):
     OBLIGATIONS.append(Ob(name='C01.O4.qsbr.scan%d' % nr, harness='C01/scan_qsbr.c', entry='h_scan', defines=('_LGPL_SOURCE', 'NRMAX=%d' % nr), mode='legacy', tiers=tiers,
        replace=('wait_gp',), rules=('qs_attempts_small_qsbr',), tier='B', bound='<= %d reader(s), <= 3 passes,' % nr + ' RCU_QS_ACTIVE_ATTEMPTS reduced from 100 to 2 (scratch rewrite)',
-       unwind=4, cbmc_flags=('--no-unwinding-assertions',), min_covers=3 if nr == 2 else 2, checks=('--bounds-check', '--signed-overflow-check', '--div-by-zero-check'), backend='cadical', timeout=(300 if nr == 1 else 900),
+       unwind=4, cbmc_flags=('--no-unwinding-assertions',), min_covers=3 if nr == 2 else 2, checks=('--bounds-check', '--signed-overflow-check', '--div-by-zero-check'), backend=('cadical' if nr == 1 else 'minisat'), timeout=(300 if nr == 1 else 900),
        functions=('wait_for_readers', 'urcu_qsbr_reader_state', 'cds_list_move'),
        desc='qsbr wait_for_readers with arbitrary reader counters at every load: never retires a reader on an OLD observation; nothing lost/duplicated; sleeps only after arm -> wmb -> waiting set on every awaited reader -> full barrier -> re-scan with one OLD; futex reset with release; lock discipline'))
 for nr, tiers in ((1, ('quick', 'thorough')), (2, ('thorough',))):
